@@ -26,3 +26,6 @@ pub uninterp spec fn fv(x: Fl) -> real;
 #[verifier::external_body] pub fn fl_rat(neg: bool, n: u64, d: u64) -> (r: Fl) requires d > 0
     ensures fv(r) == (if neg { -((n as int) as real) / ((d as int) as real) } else { ((n as int) as real) / ((d as int) as real) }) { unimplemented!() }
 #[verifier::external_body] pub fn fl_neg(a: Fl) -> (r: Fl) ensures fv(r) == -fv(a) { unimplemented!() }
+// ---- error-propagation contracts: `//@event f errflag=<flag>` passes every result of f through note_err
+#[verifier::external_body] pub fn note_err<T>(r: Result<T, SkErr>, flag: &mut bool) -> (o: Result<T, SkErr>)
+    ensures o == r, *final(flag) == (*old(flag) || r is Err) { unimplemented!() }
